@@ -319,7 +319,8 @@ def boundary_scenarios():
 
 class C05(SeqProp):
     pid = "C05"
-    spec_import = "Require Import PV.Spec.SpecC05."
+    spec_import = "Require Import PV.Spec.SpecC05.\nRequire PV.Proofs.C05Spec."
+    dom_fn = "(fun ops => andb (PV.Proofs.C05Spec.in_domain ops) (PV.Proofs.C05Spec.no_collision ops))"     # the domain of the uniform spec-of-model theorem (counted in the evidence)
     spec_fn = "spec_c05"
     known_fn = "known_c05"
     rule = ("one scenario = one counter / gauge / histogram vector with 1-4 declared label names (any order) and 0-2 constant labels; "
